@@ -656,6 +656,11 @@ func (in *Interp) decFromSymString(fr *frame, s *SymStr) value {
 	tc := in.TC
 	fail := func(msg string) value { return tuple{Dec{}, in.makeError(fr, "can't convert symbolic text to decimal: "+msg)} }
 	e := s.E
+	if len(e) == 1 {
+		if tk, ok := e[0].(*Tok); ok {
+			return tuple{tk.D, iface{}} // the text of a decimal parses back to that decimal
+		}
+	}
 	neg := false
 	i := 0
 	if len(e) == 0 {
